@@ -469,6 +469,9 @@ func ZZ_C07_ConsistencyEmptyOld() {
 	var oldRoot common.Uint256
 	copy(oldRoot[:], zzsym.Bytes("oldRoot", 32))
 	proof := zz7Hashes("proof", zzsym.Choose("k", 2))
+	// since fix 77aa857 an old root EQUAL to the new root is rejected when the sizes differ (0 vs n>0);
+	// every other old root of an "empty" tree is still accepted unchecked
+	zzsym.Assume(oldRoot != rootN)
 	zzsym.Assert(NewMerkleVerifier().VerifyConsistency(0, uint32(n), oldRoot, rootN, proof) == nil,
 		"the empty tree is accepted as consistent with every tree")
 	zzsym.Cover("empty-old-done")
